@@ -654,6 +654,14 @@ unsigned cmb_random_loaded_dice(const unsigned n, const double *pa)
         }
     }
 
+    /*
+     * Probabilities that sum to slightly less than one (within the accepted
+     * tolerance) leave a sliver at the top that belongs to the last face.
+     */
+    if (ui == n) {
+        ui = n - 1u;
+    }
+
     cmb_assert_debug(ui < n);
     return ui;
 }
